@@ -52,12 +52,12 @@ def gen_base(rng, tier, index):
                 # base 9: every worker dies in begin() (two of them after 0.6 s, i.e. after the pool started to send the orders)
                 "faults": {"0": ["begin"], "1": ["begin"], "2": ["begin"]} if b9 else None, "side_thread": b9, "ready_first": False,
                 "calls": [] if (b9 or index % 80 < 40) else [{"ordered": True, "n": 1, "chunk": 1, "form": "list"}]}
-    if index in (11, 15) or (tier == "thorough" and index % 40 in (11, 15)):
+    if index in (11, 17) or (tier == "thorough" and index % 40 in (11, 17)):
         # the pool is left while the result generator of the last call is still alive (kept by the caller, as a traceback keeps
         # it) after one result: no worker may be running - or be started - once the context is left. Unbounded result
-        # queue and no chunk limit (an unfinished call promises nothing else); base 15: a one-slot-per-worker work queue
+        # queue and no chunk limit (an unfinished call promises nothing else); base 17: a one-slot-per-worker work queue
         # and items that keep the workers busy for longer than the pool's internal put timeout
-        slow = index % 40 == 15
+        slow = index % 40 == 17
         return {"pool": "factory" if (index // 40) % 2 == 0 else "functor", "workers": 2, "wq": 1.0 if slow else rng.choice([1.0, None]),
                 "rq": None, "quota": None, "end_delay": 0.1, "begin_delay": 0, "ready_first": True, "body_raises": index % 80 < 40,
                 "no_sweep": slow, "limit_factor": 2 if slow else 1,
